@@ -201,6 +201,16 @@ def generate(rng, tier, n):
         if any(op[0] in ("qfail", "qabandon") for op in ops):
             tags.append("abnormal-eval")
         cases.append(_case(rng.choice([4, 5]), ops, tags, "random"))
+    # queries that are DECLARED over let(T, None) while instances exist and are not evaluated in the body (rules and queries
+    # are typically declared up-front): the instances are dropped while the query objects are still held — nothing may stay
+    # alive (pin=0), with and without relations among the instances, for every class and for several declared queries
+    for _ in range(max(4, n // 6)):
+        g = _sg.Gen(rng, classes=rng.choice([(1, 2), (1, 2, 3), (1, 1, 2, 7)]))
+        ops = [g.new() for _ in range(rng.randint(1, 4))]
+        ops += g.history(rng.randint(0, 4), w_new=1.0, w_drop=0.3, w_rel=2.5, w_sweep=0.2, w_clear=0.0, w_query=0.0)
+        for k in range(rng.randint(1, 3)):
+            ops.insert(rng.randint(1, len(ops)), ["mkq", 60 + k, rng.choice([0, 1, 2, 2, 3])])
+        cases.append(_case(rng.choice([4, 5]), ops, ("random", "declared-only"), "random"))
     # long-lived roots, transients reached through flatten(root.knows) by queries over the root type
     for _ in range(n // 5):
         roots = [900 + i for i in range(rng.randint(1, 3))]
